@@ -3047,13 +3047,18 @@ namespace awkward {
                     "same slice item") + FILENAME(__LINE__));
     }
     if (dtype_ == util::dtype::int64) {
-        int64_t* raw = reinterpret_cast<int64_t*>(ptr_.get());
-        std::shared_ptr<int64_t> ptr(ptr_, raw);
+        // the index is read flat (as the content of a jagged slice):
+        // a strided view has to be made contiguous first
+        NumpyArray contiguous_self = contiguous();
+        int64_t* raw = reinterpret_cast<int64_t*>(contiguous_self.ptr().get());
+        std::shared_ptr<int64_t> ptr(contiguous_self.ptr(), raw);
         std::vector<int64_t> shape({ (int64_t)shape_[0] });
-        std::vector<int64_t> strides({ (int64_t)strides_[0] /
-                                       (int64_t)itemsize_ });
+        std::vector<int64_t> strides({ 1 });
         return std::make_shared<SliceArray64>(
-          Index64(ptr, (int64_t)byteoffset_ / (int64_t)itemsize_, length(), ptr_lib_),
+          Index64(ptr,
+                  (int64_t)contiguous_self.byteoffset() / (int64_t)itemsize_,
+                  length(),
+                  ptr_lib_),
           shape,
           strides,
           false);
